@@ -1,9 +1,29 @@
 import TdVerif.Sexp
+import TdVerif.Drive.C01
+import TdVerif.Drive.C02
+import TdVerif.Drive.C03
+import TdVerif.Drive.C04
+import TdVerif.Drive.C05
+import TdVerif.Drive.C06
+import TdVerif.Drive.C07
+import TdVerif.Drive.C08
+import TdVerif.Drive.C09
+import TdVerif.Drive.C10
+import TdVerif.Drive.C11
+import TdVerif.Drive.C12
+import TdVerif.Drive.C13
+import TdVerif.Drive.C14
+import TdVerif.Drive.C15
+import TdVerif.Drive.C16
+import TdVerif.Drive.C17
 import TdVerif.Drive.C18
+import TdVerif.Drive.C19
+import TdVerif.Drive.C20
 
 open TdVerif TdVerif.Drive
 
-def handlers : List (String → List Sexp → Option Sexp) := [handleC18]
+def handlers : List (String → List Sexp → Option Sexp) := [
+  handleC01, handleC02, handleC03, handleC04, handleC05, handleC06, handleC07, handleC08, handleC09, handleC10, handleC11, handleC12, handleC13, handleC14, handleC15, handleC16, handleC17, handleC18, handleC19, handleC20]
 
 def answer (line : String) : String :=
   match Sexp.parse line with
